@@ -75,7 +75,7 @@ prop(
 
 prop(
     "C01",
-    level_text="Refinement of the RFC 8878 transcription (Zstd.Spec, validated against libzstd on every run) by the model of the decoder, proved component by component for all inputs: block headers (all byte patterns; table and guard from the source), window descriptors (all descriptors; operators from the source), offset-history step = RFC rule for every offset value/history, offset values >= 1; code tables = RFC (C14), FSE (C12), Huffman (C13), sequence execution and the composed frame theorem as far as merged (C01_full stays visible; partial). The executable model is replayed against the real decoder on libzstd frames of every level/window/flag/flush pattern, ruzstd frames, and synthetic frames using features no compressor emits on demand (all sequence-count encodings, repeat offsets in both literal-length cases, offsets at exactly the window distance, every header layout), under several drivers; oracles: original data, libzstd, reference executor.",
+    level_text="Refinement of the RFC 8878 transcription (Zstd.Spec, validated against libzstd on every run) by the model of the decoder, proved component by component for all inputs: block headers (all byte patterns; table and guard from the source), window descriptors (all descriptors; operators from the source), offset-history step = RFC rule for every offset value/history, offset values >= 1; code tables = RFC (C14), FSE (C12), Huffman (C13), sequence execution and the composed frame theorem as far as merged (C01_full stays visible; partial). BLOCK LEVEL on the faithful block decoder model (Model/BlockDecode.lean): decodeSequences_refines (full: every count encoding, Predefined/RLE/FSE_Compressed/Repeat per table, the interleaved three-state bitstream; tables left in the scratch stay coupled with the Spec's), literalsHeader_refines and decodeLiterals_refines_raw_rle (full), decodeLiterals_refines_huffman (full: Compressed and Treeless sections, tree description in direct and FSE-compressed form = Spec.Huffman.readWeights, table = canonical table (C13), one stream and four streams with the jump table = Spec.Huffman.decodeStream), blk_decodeLiterals_refines (decodeLiterals_refines_full is a theorem), blk_decompressBlock_refines (decompressBlock_refines_full is a theorem: for every block the RFC semantics decodes, decompress_block returns Ok, appends the same bytes, leaves the same offset history and a coupled entropy state for the next block); decompressBlock_refines_raw_rle / decompressBlock_refines_partial are kept as the intermediate statements. The executable model is replayed against the real decoder on libzstd frames of every level/window/flag/flush pattern, ruzstd frames, and synthetic frames using features no compressor emits on demand (all sequence-count encodings, repeat offsets in both literal-length cases, offsets at exactly the window distance, every header layout), under several drivers; oracles: original data, libzstd, reference executor.",
     engines=[{"name": "spec"}, {"name": "dec"}, {"name": "hostile"}, {"name": "blk"}, {"name": "bits"}, {"name": "fse"}, {"name": "huf"}, {"name": "ring"}],
     # the decoder is only as right as its components: a wrong bit read, FSE/Huffman table or window copy found by a
     # component engine is a violation of C01 as well
@@ -86,7 +86,7 @@ prop(
 
 prop(
     "C03",
-    level_text="Every Rust panic site the frame-level model can reach is a Fault value; theorems (all inputs, all states): execute_sequences never faults because the only panic site (offset_value - 3 underflow) needs an offset value 0 which no decoded sequence carries (decodeSeqLoop_ov_pos, executeSequences_no_fault); frame-level no-fault/fuel theorems and the entropy-stage no-fault theorems (C12/C13) and the raw-pointer window (C04) complete the picture — C03_full stays visible; partial. Tie to the code: engine hostile runs every decoding entry point (decode_blocks loops, StreamingDecoder, decode_all_to_vec, decode_from_to, Dictionary::decode_dict, decoding with hostile dictionaries) on the repo's fuzz artefacts, structure-aware hostile frames (one field broken on purpose per frame), mutated libzstd frames and random bytes under catch_unwind, a watchdog deadline and a counting allocator, then resets the same decoder and requires it to behave like a fresh one.",
+    level_text="Every Rust panic site the frame-level model can reach is a Fault value; theorems (all inputs, all states): execute_sequences never faults because the only panic site (offset_value - 3 underflow) needs an offset value 0 which no decoded sequence carries (decodeSeqLoop_ov_pos, executeSequences_no_fault); frame-level no-fault/fuel theorems and the entropy-stage no-fault theorems (C12/C13) and the raw-pointer window (C04) complete the picture — C03_full stays visible; partial. BLOCK LEVEL, proved in full on the faithful block decoder model (Model/BlockDecode.lean, the one engine blk compares with the real code): decompressBlock_no_fault — for every byte string as block content, every well-formed entropy state (Blk.WF: FSE tables uninitialised or built, RLE symbols within the alphabets, Huffman table empty or built) and every buffer, decompress_block (literals header, Raw/RLE/Huffman literals in 1 or 4 streams incl. table build from direct or FSE-compressed weights, sequence header, table update in all four modes, the three-state sequence loop, sequence execution) returns a value or an error, never a Fault, and no loop runs out of fuel (termination); decompressBlock_keeps_WF, decompressBlock_err_state, scratch_new_WF, reset_reestablishes_WF, blockChain_no_fault, legal_history_no_fault (any number of frames on one scratch, each reset + blocks up to the first error). The clause (stop at the first error) is necessary: decompressBlock_no_fault_any_history_false with two concrete witnesses (a failed FSE / Huffman table build leaves accuracy_log / max_num_bits set over an empty table; FrameDecoder::decode_blocks called again after the Err panics in a Repeat-mode / Treeless block) — confirmed on the real FrameDecoder, outside the property's legal call sequences, reported as an observation. Tie to the code: engine hostile runs every decoding entry point (decode_blocks loops, StreamingDecoder, decode_all_to_vec, decode_from_to, Dictionary::decode_dict, decoding with hostile dictionaries) on the repo's fuzz artefacts, structure-aware hostile frames (one field broken on purpose per frame), mutated libzstd frames and random bytes under catch_unwind, a watchdog deadline and a counting allocator, then resets the same decoder and requires it to behave like a fresh one.",
     engines=[{"name": "hostile"}, {"name": "dec"}, {"name": "blk"}],
     modelled="see C01; panics inside the entropy decoders are covered by C12/C13 models, raw memory by C04",
     assumptions=["wall-clock time is represented by fuel (loop iterations) in the theorems and by a watchdog deadline in the harness", "allocation failure aborts the process and is outside the model"],
